@@ -3594,6 +3594,43 @@ fn convert_member_key_simple<'a>(
   })
 }
 
+/// Verification hooks: expose the private literal / error-range helpers to the
+/// out-of-tree replay harness. Compiled only with `--cfg anweiss_cddl_verif`.
+#[cfg(anweiss_cddl_verif)]
+#[doc(hidden)]
+pub mod verif_hooks {
+  pub fn parse_u64_lit(s: &str) -> Option<u64> {
+    super::parse_u64_lit(s)
+  }
+  pub fn parse_uint_lit(s: &str) -> Option<usize> {
+    super::parse_uint_lit(s)
+  }
+  pub fn parse_int_lit(s: &str) -> Option<isize> {
+    super::parse_int_lit(s)
+  }
+  pub fn compute_error_range(index: usize, input: &str) -> (usize, usize) {
+    super::compute_error_range(index, input)
+  }
+  pub fn scan_token_end(bytes: &[u8], start: usize) -> usize {
+    super::scan_token_end(bytes, start)
+  }
+  pub fn scan_token_start(bytes: &[u8], pos: usize) -> usize {
+    super::scan_token_start(bytes, pos)
+  }
+  pub fn unescape_text(text: &str) -> String {
+    super::unescape_text(text)
+  }
+  pub fn hex_decode(input: &[u8]) -> Result<Vec<u8>, ()> {
+    super::hex_decode(input)
+  }
+  pub fn base64_decode(input: &[u8]) -> Result<Vec<u8>, &'static str> {
+    super::base64_decode(input)
+  }
+  pub fn clean_prefixed_byte_string(content: &str) -> String {
+    super::clean_prefixed_byte_string(content)
+  }
+}
+
 #[cfg(test)]
 mod tests {
   use super::*;
